@@ -53,7 +53,7 @@ def anchors():
 
 def gen_cases(tier, seed):
     r = gen.rng(seed, "c15")
-    sources = [("n77", f) for f in N77] + [("synthetic", i) for i in range(6)]
+    sources = [("n77", f) for f in N77] + [("synthetic", i) for i in range(8)]
     reps = 2 if tier == "quick" else 40
     for src in sources:
         for entry in CHEAP:
@@ -107,7 +107,7 @@ def _load(name, folder="characterisation"):
 def _synthetic(i):
     """Type II/IV-like isotherms at temperatures where p0 is far from 1 bar (so that bar and relative pressure differ)."""
     import pygaps
-    ads, T = [("nitrogen", 70.0), ("nitrogen", 90.0), ("argon", 100.0), ("verif-c15-vapour", 300.0), ("nitrogen", 77.355), ("nitrogen", 77.355)][i]
+    ads, T = [("nitrogen", 70.0), ("nitrogen", 90.0), ("argon", 100.0), ("verif-c15-vapour", 300.0), ("nitrogen", 77.355), ("nitrogen", 77.355), ("nitrogen", 77.355), ("nitrogen", 77.355)][i]
     if i == 3:
         # a user-defined vapour without thermodynamic backend: everything comes from the properties the user supplied
         # (saturation pressure in Pa, densities in g/cm3, surface tension in mN/m, as documented)
@@ -119,6 +119,16 @@ def _synthetic(i):
         # recorded directly in percent of the saturation pressure
         return pygaps.PointIsotherm(pressure=list(p * 100), loading=list(n), branch="ads", material="verif-c15-4", adsorbate=ads, temperature=T, pressure_mode="relative%",
                                     **{k: v for k, v in gen.DEFAULT_UNITS.items() if not k.startswith("pressure")})
+    if i in (6, 7):
+        # as an instrument writes it: whole numbers (an integer column), in the units it works in - liquid volume per kg of sample
+        # (the unit the pore-volume methods read themselves), or cm3(STP) per g
+        p = p[20:]
+        n = n[20:]
+        if i == 6:
+            vals, lkw = numpy.rint(n * 34.7).astype(numpy.int64), dict(loading_basis="volume_liquid", loading_unit="cm3", material_basis="mass", material_unit="kg")
+        else:
+            vals, lkw = numpy.rint(n * 22.414).astype(numpy.int64), dict(loading_basis="molar", loading_unit="cm3(STP)", material_basis="mass", material_unit="g")
+        return pygaps.PointIsotherm(pressure=p, loading=vals, branch="ads", material="verif-c15-%d" % i, adsorbate=ads, temperature=T, pressure_mode="relative", pressure_unit=None, temperature_unit="K", **lkw)
     if i == 5:
         # a high-affinity (type I) sample: Henry constants of 1e6 mmol/g/bar and more
         p = numpy.concatenate([numpy.exp(numpy.linspace(math.log(1e-13), math.log(1e-7), 30)), p])
@@ -274,7 +284,8 @@ def _run_twin(case, ctx):
         twin = isotherm_from_json(base.to_json())
         info["transformation"] = "json round trip"
     else:
-        scale = round(gen.log_uniform(r, 0.2, 5.0), 4)
+        # (any positive factor: a sample a thousand times less / more porous is the same analysis)
+        scale = round(gen.log_uniform(r, 0.2, 5.0), 4) if r.random() < 0.5 else r.choice([1e-4, 1e-3, 1e-2, 1e2, 1e3])
         twin = gen.copy_point(base)
         twin.data_raw[twin.loading_key] = twin.data_raw[twin.loading_key] * scale
         info["transformation"] = "loading x %s" % scale
@@ -312,7 +323,16 @@ def _run_twin(case, ctx):
         return
     if entry.startswith("initial_henry") and how == "scale":
         if not close(float(rb[1]["K"]), float(ra[1]["K"]) * scale, max(rt, 1e-6)):
-            ctx.violation(key + "/scale", "the Henry constant does not scale with the loading", a=ra[1]["K"], b=rb[1]["K"], scale=scale)
+            ratio = float(rb[1]["K"]) / (float(ra[1]["K"]) * scale) if float(ra[1]["K"]) else float("inf")
+            # factors of 100 and more (or 0.01 and less) change the magnitude of the numbers the optimiser works on: an
+            # optimiser-quality deviation there (within a factor 10) is told apart from a missing factor (>= 100) - ordinary
+            # factors are judged strictly
+            # (the Virial polynomial in raw loading numbers reacts to any change of their magnitude, whatever unit they started in)
+            if entry == "initial_henry_virial":
+                sub = "/optimiser-dependent-on-data-scale" if 0.1 < ratio < 10 else ""
+            else:
+                sub = "/large-factor/optimiser-dependent-on-data-scale" if (scale >= 100 or scale <= 0.01) and 0.1 < ratio < 10 else ""
+            ctx.violation(key + "/scale" + sub, "the Henry constant does not scale with the loading", a=ra[1]["K"], b=rb[1]["K"], scale=scale, ratio=ratio, **info)
         return
     if how == "scale" and entry.startswith("psd_micro:") and entry.endswith("CY"):
         pass  # the Cheng-Yang correction uses the coverage n / max(n): invariant
